@@ -137,8 +137,35 @@ Proof.
   induction a as [|c a IH]; [reflexivity|]. cbn [app escape_chars]. destruct (needs_escape c); rewrite IH; reflexivity.
 Qed.
 
+(* instance obligation on the table read from the source: the tilde is escaped *)
 Lemma tilde_needs_escape : needs_escape tilde = true.
-Proof. reflexivity. Qed.
+Proof. vm_compute. reflexivity. Qed.
+
+(* the characters that begin or end inline markup for the reader (CommonMark 0.30 section 6 and the GFM extensions the
+   converter switches on): backslash escapes, code spans, emphasis, links and images, autolinks and raw HTML, entity
+   and character references, strikethrough, table cell separators *)
+Definition md_inline_significant : list nat := [92; 96; 42; 95; 91; 93; 60; 38; 126; 124].
+
+(* instance obligation on the table read from the source: every one of them is written with a backslash *)
+Theorem escape_set_covers_inline_syntax :
+  forall c, In (code_of c) md_inline_significant -> needs_escape c = true.
+Proof.
+  assert (forallb (fun n => existsb (Nat.eqb n) Gen.MdTables.md_escape_set) md_inline_significant = true) as H
+    by (vm_compute; reflexivity).
+  intros c Hin. unfold needs_escape. rewrite forallb_forall in H. apply H. exact Hin.
+Qed.
+
+(* ... and nothing else: letters, digits, blanks and the other punctuation are copied as they are (an escaped letter
+   or digit would be read back with its backslash) *)
+Theorem escape_set_is_punctuation :
+  forall n, In n Gen.MdTables.md_escape_set -> (33 <= n <= 47 \/ 58 <= n <= 64 \/ 91 <= n <= 96 \/ 123 <= n <= 126).
+Proof.
+  assert (forallb (fun n => (Nat.leb 33 n && Nat.leb n 47) || (Nat.leb 58 n && Nat.leb n 64) || (Nat.leb 91 n && Nat.leb n 96) || (Nat.leb 123 n && Nat.leb n 126))
+            Gen.MdTables.md_escape_set = true) as H by (vm_compute; reflexivity).
+  intros n Hin. rewrite forallb_forall in H. specialize (H n Hin).
+  repeat (apply Bool.orb_true_iff in H; destruct H as [H|H]);
+    apply Bool.andb_true_iff in H; destruct H as [H1 H2]; apply Nat.leb_le in H1; apply Nat.leb_le in H2; auto.
+Qed.
 
 (* what is not a tilde at the end stays as it is *)
 Lemma ref_tail_last cs c : Ascii.eqb c tilde = false -> ref_tail (cs ++ [c]) = cs ++ [c].
